@@ -93,6 +93,10 @@ def gen_plan(seed, tier="quick"):
             t = max(0, min(ns - 1, t))
             ts.add(t)
         units.append(sorted(ts))
+    if r.random() < 0.03 and ns >= 10000:
+        # one very active unit and a large max_wf (limits expressed in waveforms per unit, not in samples)
+        max_wf = 600
+        units[0] = sorted(r.sample(range(50, ns - 100), 700))
     # duplicates across units
     if nunits >= 2 and r.random() < 0.5 and units[0]:
         units[1] = sorted(set(units[1]) | set(r.sample(units[0], min(len(units[0]), 3))))
